@@ -210,8 +210,10 @@ def verify_files(w, mon, arm, keys, inflight_ok):
     return res
 
 
-def resume_from(w, mon, path, case, keys):
-    """O2: resume in a fresh incarnation from `path` (must correspond to an acked/in-flight snapshot)."""
+def resume_from(w, mon, path, case, keys, second_fault=None, depth=0):
+    """O2: resume in a fresh incarnation from `path` (must correspond to an acked/in-flight snapshot).
+    second_fault: the resumed incarnation is itself crashed at an absolute syscall index; the files are then
+    verified again (O3) and the run is resumed once more from the newest checkpoint (fault sequences of length 2)."""
     snaps = ([mon.pending[path]] if path in mon.pending else []) + list(reversed(mon.acked.get(path, [])))
     if not snaps:
         return None
@@ -232,12 +234,18 @@ def resume_from(w, mon, path, case, keys):
     if case.get("reconfig"):
         over.update(case["reconfig"])
     out = dict(done=False)
+    plan2 = None
+    if second_fault is not None:
+        plan2 = {int(second_fault["at"]): dict(kind=second_fault["kind"], cut_seed=second_fault.get("cut_seed", 0), byte=second_fault.get("byte"))}
     try:
-        with w.incarnation() as inc:
+        with w.incarnation(plan=plan2) as inc:
             s = inc.new_sampler(**over)
             try:
                 s.run(n_total=case.get("resume_n_total", case["n_total"]), progress=False, resume_state_path=path, save_every=case.get("save_every"))
                 out["done"] = True
+            except SimCrash as e:
+                forget(e)
+                out["crashed_again"] = True
             except SimHang as e:
                 w.violation(PROP, "O2.no_termination", f"resumed run did not terminate: {e}", **keys)
                 forget(e)
@@ -263,6 +271,13 @@ def resume_from(w, mon, path, case, keys):
     finally:
         w.monitors.remove(rm)
         w.monitors.remove(cap)
+    if out.get("crashed_again") and depth == 0:
+        w.bump("fault.fired.second_crash")
+        verify_files(w, mon, "crash", dict(keys, second_crash=True), inflight_ok=True)
+        cks = [p for p in w.fs.files("/simfs/out") if (p in mon.acked or p in mon.pending) and not p.endswith("sm.state")]
+        if cks and not w.violations:
+            best = max(cks, key=lambda p: (mon.pending.get(p) or mon.acked[p][-1]).get("iter") or 0)
+            out["second_resume"] = resume_from(w, mon, best, case, dict(keys, second_crash=True), depth=1)
     return out
 
 
@@ -319,7 +334,7 @@ def run_one_fault(case, idx, plan, meta, do_resume):
             if cks:
                 best = max(cks, key=lambda p: (mon.pending.get(p) or mon.acked[p][-1]).get("iter") or 0)
                 if not w.violations:
-                    info["resume"] = resume_from(w, mon, best, case, keys)
+                    info["resume"] = resume_from(w, mon, best, case, keys, second_fault=case.get("second_fault"))
     else:  # io.error
         s = first["sampler"]
         if first["exc"] is None:
@@ -551,6 +566,9 @@ def cases(seed, tier):
         where = r.choice(["in", "in", "after_window"])
         case["faults"] = [dict(kind=r.choice(["crash.process", "crash.machine"]), window=r.randrange(12), op=r.randrange(12), where=where,
                                byte_frac=r.choice([None, 0, "one", 1, round(r.random(), 3)]), cut_seed=r.randrange(1 << 30))]
+        if r.random() < 0.3:
+            # fault sequence of length two: the resumed incarnation dies as well (absolute syscall index: the first ~6 saves of the resumed run)
+            case["second_fault"] = dict(kind=r.choice(["crash.process", "crash.machine"]), at=r.randrange(2, 40), cut_seed=r.randrange(1 << 30), byte=r.choice([None, 0, 1, 500]))
         out.append(case)
     for k in range(n_io):
         r = random.Random(sch.np_seed(f"io{k}"))
@@ -599,6 +617,8 @@ def shrink(case):
         yield mod(reconfig=None)
     if c.get("resume_n_total"):
         yield mod(resume_n_total=None)
+    if c.get("second_fault"):
+        yield mod(second_fault=None)
 
 
 def evidence(results, cases_, tier):
